@@ -358,3 +358,50 @@ Definition kf_f30 (args : list val) : bool :=
       end
   | _ => false
   end.
+
+(** ---------------- input side of the known-finding classifiers ----------------
+    A known finding is identified by the input that fails, not only by what the failure
+    looks like: the harness appends the program (constructor strings, modifier arguments)
+    of the failing case to the classifier's arguments, and the classifier also demands
+    that the input belongs to the class of the finding. *)
+Fixpoint val_strings (v : val) : list str :=
+  match v with
+  | WStr s => [s]
+  | WList l => (fix go (l : list val) : list str := match l with [] => [] | x :: r => val_strings x ++ go r end) l
+  | _ => []
+  end.
+
+(** the texts written between '[' and the next ']' *)
+Fixpoint bracket_groups (s : str) : list str :=
+  match s with
+  | [] => []
+  | c :: r => if c =? 91 then (let '(inner, _, _) := partition 93 r in inner) :: bracket_groups r else bracket_groups r
+  end.
+
+(** F17: some input text has a bracketed host that the address parser does not accept as IPv6 *)
+Definition f17_input (ip_parse : str -> option (N * str)) (prog : val) : bool :=
+  existsb (fun s => existsb (fun g => let '(addr, _, _) := partition 37 g in
+                                      match ip_parse addr with Some (6, _) => false | _ => true end)
+                            (bracket_groups s))
+          (val_strings prog).
+
+(** F30: some input text contains a lone surrogate *)
+Definition f30_input (prog : val) : bool :=
+  existsb (fun s => existsb is_sur s) (val_strings prog).
+
+(** observation side of F17 once the input is known to be in the class: the stored host
+    shows a ':' (brackets not restored), an authority accessor fails with ValueError, or the
+    stored authority has unbalanced brackets *)
+Definition f17_observed (args : list val) : bool :=
+  match args with
+  | (WList _ as o) :: _ =>
+      (match nthv i_raw_host o with
+       | WStr h => mem 58 h
+       | WErr ValueError => true
+       | _ => false
+       end)
+      || match nthv i_netloc o with
+         | WStr nl => let '(_, _, hp) := rpartition 64 nl in xorb (mem 91 hp) (mem 93 hp)
+         | _ => false end
+  | _ => false
+  end.
